@@ -64,7 +64,7 @@ def main() -> int:
         for pid in ids:
             env_c = dict(os.environ, ROPT_SRC=str(scratch / "src"))
             t0 = time.time()
-            res = subprocess.run(["/verif/run.sh", pid, args.tier, "--no-evidence"], env=env_c, capture_output=True, text=True, stdin=subprocess.DEVNULL)
+            res = subprocess.run([str(Path(__file__).resolve().parents[1] / "run.sh"), pid, args.tier, "--no-evidence"], env=env_c, capture_output=True, text=True, stdin=subprocess.DEVNULL)
             sigs = [line.strip().split(" ")[0] for line in res.stdout.splitlines() if line.strip().startswith("signature=")]
             clean = res.returncode == 0 and "VIOLATION" not in res.stdout
             checks[pid] = {"verdict": "silent" if clean else f"alarm-exit-{res.returncode}", "tier": args.tier, "signatures": sigs[:8],
